@@ -179,6 +179,8 @@ func check(c Case) pbt.Verdict {
 		e.Set(types.Symbol{Val: names[i]}, r.Val)
 		// the same value built from Go without the reader (L-notation style)
 		e.Set(types.Symbol{Val: "g" + names[i]}, val.To(vals[i]))
+		// and with every empty collection as its Go zero value
+		e.Set(types.Symbol{Val: "z" + names[i]}, val.ToZero(vals[i]))
 	}
 	eqv := func(x, y string) (bool, error) {
 		r := box.ReadEval(ctx, "(= "+x+" "+y+")", e)
@@ -197,7 +199,8 @@ func check(c Case) pbt.Verdict {
 	type pair struct{ i, j int }
 	for _, p := range []pair{{0, 1}, {1, 0}, {1, 2}, {2, 1}, {0, 2}, {2, 0}, {0, 0}, {1, 1}, {2, 2}} {
 		want := val.EqLisp(vals[p.i], vals[p.j])
-		for _, form := range [][2]string{{names[p.i], names[p.j]}, {names[p.i], "g" + names[p.j]}, {"g" + names[p.i], names[p.j]}} {
+		for _, form := range [][2]string{{names[p.i], names[p.j]}, {names[p.i], "g" + names[p.j]}, {"g" + names[p.i], names[p.j]},
+			{names[p.i], "z" + names[p.j]}, {"z" + names[p.i], names[p.j]}, {"z" + names[p.i], "g" + names[p.j]}} {
 			got, err := eqv(form[0], form[1])
 			if err != nil {
 				return pbt.Failf("eq-error", "(= %s %s) failed: %v  [%s vs %s]", form[0], form[1], err, val.Canon(vals[p.i]), val.Canon(vals[p.j]))
